@@ -3,6 +3,9 @@ package main
 // Frame / ownership obligations that are decided on the typed AST of the package:
 //   //@ immutable T  prop ...        no store to a field of T outside composite literals
 //   //@ atomic-only T.f  prop ...    field f of T is touched only through sync/atomic
+//   //@ no-mutable-globals prop ...   no package-level variable of the package is assigned (whole,
+//                                     element or field) outside initialisers and init functions,
+//                                     and none holds a map, channel or function value
 // Each directive yields one obligation per offending site (or one discharged obligation
 // when there is none); nothing is executed symbolically.
 
@@ -37,7 +40,7 @@ func parseSynDirectives(path, pkgPath string, lines []string) []*SynDirective {
 	var out []*SynDirective
 	for i, raw := range lines {
 		t := strings.TrimSpace(raw)
-		for _, kind := range []string{"immutable", "atomic-only"} {
+		for _, kind := range []string{"immutable", "atomic-only", "no-mutable-globals"} {
 			pfx := "//@ " + kind + " "
 			if !strings.HasPrefix(t, pfx) {
 				continue
@@ -64,6 +67,29 @@ func parseSynDirectives(path, pkgPath string, lines []string) []*SynDirective {
 
 func (p *Prog) checkSyntactic(d *SynDirective) *SynResult {
 	pk := p.Pkgs[d.Pkg]
+	if d.Kind == "no-mutable-globals" {
+		res := &SynResult{Name: fmt.Sprintf("%s#no-mutable-globals", pk.Name), OK: true}
+		scope := pk.Types.Scope()
+		for _, name := range scope.Names() {
+			v, ok := scope.Lookup(name).(*types.Var)
+			if !ok {
+				continue
+			}
+			if ps := p.Fset.Position(v.Pos()); strings.HasSuffix(ps.Filename, overlayName) {
+				continue
+			}
+			for _, w := range p.Written[v] {
+				res.OK = false
+				res.Sites = append(res.Sites, fmt.Sprintf("%s written at %s:%d", name, shortPath(w.Filename), w.Line))
+			}
+			switch v.Type().Underlying().(type) {
+			case *types.Map, *types.Chan, *types.Signature:
+				res.OK = false
+				res.Sites = append(res.Sites, fmt.Sprintf("%s holds a %s", name, v.Type().Underlying().String()))
+			}
+		}
+		return res
+	}
 	res := &SynResult{Name: fmt.Sprintf("%s.%s#%s", pk.Name, d.Type, d.Kind), OK: true}
 	if d.Field != "" {
 		res.Name = fmt.Sprintf("%s.%s.%s#%s", pk.Name, d.Type, d.Field, d.Kind)
